@@ -9,6 +9,16 @@ def n_data(flags):
     return sum(1 for v in flags if v in (1, 4))
 
 
+def _div(x, nd):
+    """x / nd with IEEE semantics for nd == 0 (a source none of whose points is flagged 1 or 4, e.g. one made of limits only):
+    positive / 0 is inf, 0 / 0 and NaN / 0 are NaN -- neither is below any threshold."""
+    if nd != 0:
+        return x / nd
+    if x != x or x == 0:
+        return float('nan')
+    return float('inf') if x > 0 else float('-inf')
+
+
 def kept(chi, nd, sel):
     """Number of fits of the ranked list `chi` (python floats, best first) that
     the selector keeps; the kept fits are the first `kept` ones."""
@@ -28,9 +38,9 @@ def kept(chi, nd, sel):
         if form == 'D':
             return c - best
         if form == 'E':
-            return c / nd
+            return _div(c, nd)
         if form == 'F':
-            return (c - best) / nd
+            return _div(c - best, nd)
         raise ValueError(form)
     return sum(1 for c in chi if q(c) < v)
 
@@ -43,7 +53,7 @@ def attained(chi, nd):
         return out
     best = chi[0]
     for c in chi:
-        for x in (c, c - best, c / nd, (c - best) / nd):
+        for x in (c, c - best, _div(c, nd), _div(c - best, nd)):
             if x == x and abs(x) != float('inf'):
                 out.add(x)
     return out
